@@ -181,9 +181,68 @@ struct Cnt
     }
 };
 
+// element types other than the counted one: optional<T> has to copy itself, whatever T can be built from
+struct Greedy
+{
+    int v;
+    Greedy(int x) : v(x)
+    {
+    }
+    // a catch-all converting constructor (as any-like or wrapper types have): building a Greedy from something
+    // that is not a Greedy gives a recognisable value
+    template <typename U, typename = typename std::enable_if<!std::is_same<typename std::decay<U>::type, Greedy>::value &&
+                                                              !std::is_same<typename std::decay<U>::type, int>::value>::type>
+    Greedy(U&&) : v(-777)
+    {
+    }
+};
+
+template <typename E>
+struct Elem;
+template <>
+struct Elem<Cnt>
+{
+    static Cnt make(int v)
+    {
+        return Cnt(v);
+    }
+    static int value(const Cnt& c)
+    {
+        return c.v;
+    }
+    static constexpr bool counted = true;
+};
+template <>
+struct Elem<bool>
+{
+    static bool make(int v)
+    {
+        return v % 2 != 0;
+    }
+    static int value(const bool& b)
+    {
+        return b ? 1 : 0;
+    }
+    static constexpr bool counted = false;
+};
+template <>
+struct Elem<Greedy>
+{
+    static Greedy make(int v)
+    {
+        return Greedy(v);
+    }
+    static int value(const Greedy& g)
+    {
+        return g.v;
+    }
+    static constexpr bool counted = false;
+};
+
+template <typename E>
 static std::string run_optional(const std::string& ops)
 {
-    using O = nitro::lang::optional<Cnt>;
+    using O = nitro::lang::optional<E>;
     std::string out;
     g_cnt_live = 0;
     {
@@ -196,7 +255,7 @@ static std::string run_optional(const std::string& ops)
                 s += (i ? "," : "");
                 if (c[i])
                 {
-                    s += std::to_string((*c[i]).v);
+                    s += std::to_string(Elem<E>::value(*c[i]));
                     engaged++;
                 }
                 else
@@ -206,7 +265,7 @@ static std::string run_optional(const std::string& ops)
                 for (int j = i + 1; j < 3; j++)
                     if (c[i] && c[j] && &*c[i] == &*c[j])
                         s += " ALIAS";
-            if (engaged != g_cnt_live)
+            if (Elem<E>::counted && engaged != g_cnt_live)
                 s += " LEAK(live=" + std::to_string(g_cnt_live) + ",engaged=" + std::to_string(engaged) + ")";
             return s;
         };
@@ -219,17 +278,22 @@ static std::string run_optional(const std::string& ops)
                 std::size_t i = std::stoul(t[1]);
                 if (t[0] == "set")
                 {
-                    Cnt v(std::stoi(t[2]));
+                    E v = Elem<E>::make(std::stoi(t[2]));
                     if (std::stoi(t[2]) % 2)
                         c[i] = v; // operator=(const T&)
                     else
-                        c[i] = Cnt(std::stoi(t[2])); // operator=(T&&)
+                        c[i] = Elem<E>::make(std::stoi(t[2])); // operator=(T&&)
                 }
                 else if (t[0] == "cp")
                     c[i] = c[std::stoul(t[2])];
                 else if (t[0] == "cpc")
                 {
-                    O tmp(c[std::stoul(t[2])]); // copy construction
+                    O tmp(c[std::stoul(t[2])]); // copy construction from a non-const lvalue
+                    const O& csrc = c[std::stoul(t[2])];
+                    O tmp2(csrc); // ... and from a const one
+                    if (static_cast<bool>(tmp) != static_cast<bool>(tmp2) ||
+                        (tmp && Elem<E>::value(*tmp) != Elem<E>::value(*tmp2)))
+                        res = "COPIES-DIFFER ";
                     c[i] = tmp;
                 }
                 else if (t[0] == "clr")
@@ -238,7 +302,7 @@ static std::string run_optional(const std::string& ops)
                 {
                     try
                     {
-                        res = "val " + std::to_string((*c[i]).v) + " ";
+                        res = "val " + std::to_string(Elem<E>::value(*c[i])) + " ";
                     }
                     catch (nitro::except::exception&)
                     {
@@ -249,7 +313,7 @@ static std::string run_optional(const std::string& ops)
                 first = false;
             }
     }
-    if (g_cnt_live != 0)
+    if (Elem<E>::counted && g_cnt_live != 0)
         out += " LEAK(at-end=" + std::to_string(g_cnt_live) + ")";
     return out;
 }
@@ -432,7 +496,11 @@ static std::string handle(const std::vector<std::string>& f)
     if (k == "q")
         return run_quaint(f.at(1));
     if (k == "o")
-        return run_optional(f.at(1));
+        return run_optional<Cnt>(f.at(1));
+    if (k == "ob")
+        return run_optional<bool>(f.at(1));
+    if (k == "og")
+        return run_optional<Greedy>(f.at(1));
     if (k == "e")
         return run_env(f);
     if (k == "d")
